@@ -29,17 +29,28 @@ pub fn nested(f: F, word: &[Step], leaf: Leaf, depth: usize, yaml_block: bool) -
 	nested_w(f, word, leaf, depth, yaml_block, 0)
 }
 
-/// `width`: MessagePack header width used for the nesting collections (0 = fix, 1 = 16-bit, 2 = 32-bit).
+/// `width`: MessagePack header width used for the nesting collections (0 = fix, 1 = 16-bit, 2 = 32-bit);
+/// 3 (all formats) = every nesting collection except the innermost one also holds an EMPTY collection as an
+/// earlier sibling of the nested child (`[[], [[], [1]]]`): the document is exactly as deep as without them.
 pub fn nested_w(f: F, word: &[Step], leaf: Leaf, depth: usize, yaml_block: bool, width: u8) -> Option<Vec<u8>> {
 	let wraps = if leaf == Leaf::Scalar { depth } else { depth.checked_sub(1)? };
 	let step = |i: usize| word[i % word.len()];
+	let sib = |i: usize| width == 3 && i + 1 < wraps;
+	if width == 3 && f == F::Yaml && yaml_block {
+		return None;
+	}
 	let mut out: Vec<u8> = vec![];
 	match f {
 		F::Json | F::Yaml if !(f == F::Yaml && yaml_block) => {
 			for i in 0..wraps {
 				match step(i) {
-					Step::Arr => out.push(b'['),
-					Step::MapVal => out.extend_from_slice(if f == F::Json { b"{\"k\":" } else { b"{k: " }),
+					Step::Arr => out.extend_from_slice(if sib(i) { b"[[]," } else { b"[" }),
+					Step::MapVal => out.extend_from_slice(match (f == F::Json, sib(i)) {
+						(true, false) => &b"{\"k\":"[..],
+						(true, true) => b"{\"e\":{},\"k\":",
+						(false, false) => b"{k: ",
+						(false, true) => b"{e: {}, k: ",
+					}),
 					Step::MapKey => {
 						if f == F::Json {
 							return None;
@@ -101,8 +112,15 @@ pub fn nested_w(f: F, word: &[Step], leaf: Leaf, depth: usize, yaml_block: bool,
 		}
 		F::Msgpack => {
 			for i in 0..wraps {
+				if sib(i) && step(i) != Step::MapKey {
+					match step(i) {
+						Step::Arr => out.extend_from_slice(&[0x92, 0x90]),
+						_ => out.extend_from_slice(&[0x82, 0xa1, b'e', 0x80, 0xa1, b'k']),
+					}
+					continue;
+				}
 				let (arr, map): (&[u8], &[u8]) = match width {
-					0 => (&[0x91], &[0x81]),
+					0 | 3 => (&[0x91], &[0x81]),
 					1 => (&[0xdc, 0, 1], &[0xde, 0, 1]),
 					_ => (&[0xdd, 0, 0, 0, 1], &[0xdf, 0, 0, 0, 1]),
 				};
@@ -134,9 +152,10 @@ pub fn nested_w(f: F, word: &[Step], leaf: Leaf, depth: usize, yaml_block: bool,
 			out.extend_from_slice(b"a = ");
 			let inner = if leaf == Leaf::Scalar { depth - 1 } else { depth.checked_sub(2)? };
 			for i in 0..inner {
+				let s = width == 3 && i + 1 < inner;
 				match step(i) {
-					Step::Arr => out.push(b'['),
-					_ => out.extend_from_slice(b"{k = "),
+					Step::Arr => out.extend_from_slice(if s { b"[[]," } else { b"[" }),
+					_ => out.extend_from_slice(if s { b"{e = {}, k = " } else { b"{k = " }),
 				}
 			}
 			out.extend_from_slice(match leaf {
@@ -206,6 +225,9 @@ pub fn run(ctx: &Ctx) -> CheckOutput {
 		for w in words(if thorough { 3 } else { 2 }, src == F::Msgpack || src == F::Yaml) {
 			for leaf in [Leaf::Scalar, Leaf::EmptyArr, Leaf::EmptyMap] {
 				shapes.push(Shape { src, word: w.clone(), leaf, block: false, width: 0 });
+				if leaf != Leaf::EmptyMap && !w.contains(&Step::MapKey) {
+					shapes.push(Shape { src, word: w.clone(), leaf, block: false, width: 3 });
+				}
 				if src == F::Msgpack && leaf == Leaf::Scalar {
 					shapes.push(Shape { src, word: w.clone(), leaf, block: false, width: 1 });
 					shapes.push(Shape { src, word: w.clone(), leaf, block: false, width: 2 });
@@ -229,7 +251,7 @@ pub fn run(ctx: &Ctx) -> CheckOutput {
 			for &d in &depths {
 				let Some(input) = nested_w(sh.src, &sh.word, sh.leaf, d, sh.block, sh.width) else { continue };
 				let case = |what: &str| json!({"kind": "depth", "src": sh.src.name(), "word": word_name(&sh.word), "leaf": format!("{:?}", sh.leaf), "block": sh.block, "width": sh.width, "depth": d, "to": to.name(), "what": what});
-				let head = format!("{} shape {}*{:?}{}{} depth {d} -> {}", sh.src.name(), word_name(&sh.word), sh.leaf, if sh.block { " (block)" } else { "" }, ["", " (16-bit headers)", " (32-bit headers)"][sh.width as usize], to.name());
+				let head = format!("{} shape {}*{:?}{}{} depth {d} -> {}", sh.src.name(), word_name(&sh.word), sh.leaf, if sh.block { " (block)" } else { "" }, ["", " (16-bit headers)", " (32-bit headers)", " (empty sibling at every level)"][sh.width as usize], to.name());
 				let s = run_mode(&input, Some(sh.src), to, Mode::Slice);
 				let r = run_mode(&input, Some(sh.src), to, Mode::Reader3);
 				t.evaluations += 2;
@@ -370,7 +392,7 @@ pub fn run(ctx: &Ctx) -> CheckOutput {
 		t.count(if release { "binary:release" } else { "binary:debug" });
 		t.count(if via_stdin { "binary:stdin(reader)" } else { "binary:file(mmap)" });
 		t.nontrivial(fnv(&[&si.to_le_bytes(), &d.to_le_bytes(), to.name().as_bytes(), &[u8::from(release), u8::from(via_stdin)]]));
-		let head = format!("{} binary, {} shape {}*{:?}{}{} depth {d} -> {} via {}", if release { "release" } else { "debug" }, sh.src.name(), word_name(&sh.word), sh.leaf, if sh.block { " (block)" } else { "" }, ["", " (16-bit headers)", " (32-bit headers)"][sh.width as usize], to.name(), if via_stdin { "stdin" } else { "file" });
+		let head = format!("{} binary, {} shape {}*{:?}{}{} depth {d} -> {} via {}", if release { "release" } else { "debug" }, sh.src.name(), word_name(&sh.word), sh.leaf, if sh.block { " (block)" } else { "" }, ["", " (16-bit headers)", " (32-bit headers)", " (empty sibling at every level)"][sh.width as usize], to.name(), if via_stdin { "stdin" } else { "file" });
 		let case = json!({"kind": "binary-depth", "src": sh.src.name(), "word": word_name(&sh.word), "leaf": format!("{:?}", sh.leaf), "block": sh.block, "width": sh.width, "depth": d, "to": to.name(), "release": release, "stdin": via_stdin});
 		match o.exit {
 			Exit::Code(0) | Exit::Code(1) => {
@@ -391,7 +413,7 @@ pub fn run(ctx: &Ctx) -> CheckOutput {
 	CheckOutput {
 		level: "exploration",
 		tally,
-		rule: format!("shapes: every nesting word of period <= {} over {{array, map-in-value-position, (MessagePack, YAML) collection-in-key-position}} x innermost in {{scalar, empty array, empty map}}, YAML in flow and block style, MessagePack with fix / 16-bit / 32-bit collection headers; in-process, {} around each format's limit (MessagePack 1024, JSON 128, YAML 128, TOML 80): for all 4 targets the verdict must be monotone in depth, equal for slice and reader, equal with detection (when detected as that format); MessagePack: exactly 1023 collections around a scalar translate and 1024 do not, in both modes, and the slice pre-pass (hook msgpack_value_size) agrees with the harness's own decoder. Through the debug and release binaries on their default main-thread stack, file (mmap) and stdin (reader): limit-1, limit, limit+1 and far depths {:?}: exit status 0 or 1 only, never a signal, and no acceptance far beyond the limit.", if thorough { 3 } else { 2 }, if thorough { "every depth from 1 to limit+76" } else { "every depth in 1..6 and limit-10..limit+10" }, far),
+		rule: format!("shapes: every nesting word of period <= {} over {{array, map-in-value-position, (MessagePack, YAML) collection-in-key-position}} x innermost in {{scalar, empty array, empty map}}, YAML in flow and block style, MessagePack with fix / 16-bit / 32-bit collection headers, every format also with an empty collection as an earlier sibling of the nested child at every level; in-process, {} around each format's limit (MessagePack 1024, JSON 128, YAML 128, TOML 80): for all 4 targets the verdict must be monotone in depth, equal for slice and reader, equal with detection (when detected as that format); MessagePack: exactly 1023 collections around a scalar translate and 1024 do not, in both modes, and the slice pre-pass (hook msgpack_value_size) agrees with the harness's own decoder. Through the debug and release binaries on their default main-thread stack, file (mmap) and stdin (reader): limit-1, limit, limit+1 and far depths {:?}: exit status 0 or 1 only, never a signal, and no acceptance far beyond the limit.", if thorough { 3 } else { 2 }, if thorough { "every depth from 1 to limit+76" } else { "every depth in 1..6 and limit-10..limit+10" }, far),
 		exhaustive: true,
 		bounds: json!({"word_period": if thorough { 3 } else { 2 }, "far_depths": far}),
 		assumptions: vec!["depth counts collections (an empty innermost collection counts, a scalar does not); 'random' shapes are represented by all periodic words up to the period bound".into()],
